@@ -219,12 +219,12 @@ def r19_13(ctx):
         ctx.ok(where, "the SGR parameters are limited to CSI parameter / intermediate bytes", "ansi:re_ansi")
 
 
-def _fold_on(expr, var, value):
-    """value of a pure expression over one string variable, folded for a literal argument (names other than the variable and a few
-    total builtins make it unreadable -> AnalysisError)"""
+def _fold_env(expr, env):
+    """value of a pure expression over known string/int locals, folded (names other than those and a few total builtins make it
+    unreadable -> AnalysisError)"""
     allowed = {"int": int, "min": min, "max": max, "len": len, "str": str, "bool": bool}
     for n in ast.walk(expr):
-        if isinstance(n, ast.Name) and n.id != var and n.id not in allowed:
+        if isinstance(n, ast.Name) and n.id not in env and n.id not in allowed:
             raise AnalysisError(f"`{norm(expr)}` reads `{n.id}`; it cannot be folded for an empty parameter")
         if isinstance(n, ast.Call) and isinstance(n.func, ast.Attribute) and n.func.attr not in ("isdecimal", "isdigit", "isnumeric", "lstrip", "rstrip", "strip", "startswith", "endswith"):
             raise AnalysisError(f"`{norm(expr)}` calls .{n.func.attr}(); it cannot be folded for an empty parameter")
@@ -232,10 +232,51 @@ def _fold_on(expr, var, value):
             raise AnalysisError(f"`{norm(expr)}` cannot be folded")
     code = compile(ast.fix_missing_locations(ast.Expression(body=ast.parse(norm(expr), mode="eval").body)), "<fold>", "eval")
     try:
-        return True, eval(code, {"__builtins__": {}}, dict(allowed, **{var: value}))
+        return True, eval(code, {"__builtins__": {}}, dict(allowed, **env))
     except Exception as e:  # the expression raises on that literal
         return False, e
 
+
+def _fold_on(expr, var, value):
+    return _fold_env(expr, {var: value})
+
+
+def _fold_loop_body(stmts, env, sink):
+    """partial evaluation of a straight-line loop body for known locals: the values appended to `sink`, or AnalysisError.
+    Returns (values, how) where how is 'continue' / 'end' / ('raises', exc)"""
+    out = []
+
+    def run(body):
+        for st in body:
+            if isinstance(st, ast.If):
+                okc, val = _fold_env(st.test, env)
+                if not okc:
+                    return ("raises", val)
+                r = run(st.body if val else st.orelse)
+                if r is not None:
+                    return r
+            elif isinstance(st, ast.Continue):
+                return "continue"
+            elif isinstance(st, (ast.Assign, ast.AnnAssign)) and isinstance(st.targets[0] if isinstance(st, ast.Assign) else st.target, ast.Name) and st.value is not None:
+                okc, val = _fold_env(st.value, env)
+                if not okc:
+                    return ("raises", val)
+                env[(st.targets[0] if isinstance(st, ast.Assign) else st.target).id] = val
+            elif isinstance(st, ast.Expr) and isinstance(st.value, ast.Call) and norm(st.value.func) in (f"{sink}.append", "append", f"{sink}_append") and len(st.value.args) == 1:
+                okc, val = _fold_env(st.value.args[0], env)
+                if not okc:
+                    return ("raises", val)
+                out.append(val)
+            elif isinstance(st, ast.Expr) and isinstance(st.value, ast.Constant):
+                continue
+            elif isinstance(st, ast.Pass):
+                continue
+            else:
+                raise AnalysisError(f"`{short(st)}` in the code loop is not folded by this rule")
+        return None
+
+    r = run(stmts)
+    return out, (r or "end")
 
 def r19_14(ctx):
     ctx.rule("R19.14", "a sequence with no parameters is a reset: re_ansi matches ESC[m (what git, tput sgr0 and many tools write) with an empty parameter string. decode_line must take its SGR branch for that match - a truthiness test of the parameter string reads it as 'no SGR' - and the parameter list built from it must contain 0 for an omitted parameter, so that the running style is dropped; otherwise the colour of redirected output leaks into every line decoded afterwards")
@@ -261,13 +302,18 @@ def r19_14(ctx):
     for n in walk_local(tk.node):
         if isinstance(n, ast.Assign) and isinstance(n.targets[0], ast.Tuple) and isinstance(n.value, ast.Call) and norm(n.value.func).endswith(".groups"):
             order = [norm(e) for e in n.targets[0].elts]
-    tok_args = None
+    field = None
     for n in walk_local(tk.node):
         if isinstance(n, ast.Call) and call_name(n) == "_AnsiToken" and len(n.args) == 3:
-            tok_args = [norm(a) for a in n.args]
-    if order is None or tok_args is None or len(order) < gidx or order[gidx - 1] not in tok_args:
+            for i, a in enumerate(n.args):
+                if order is not None and len(order) >= gidx and norm(a) == order[gidx - 1]:
+                    field = i
+                if isinstance(a, ast.Call) and isinstance(a.func, ast.Attribute) and a.func.attr == "group" and len(a.args) == 1 and isinstance(a.args[0], ast.Constant) and a.args[0].value == gidx:
+                    field = i
+                if isinstance(a, ast.Subscript) and isinstance(a.slice, ast.Constant) and a.slice.value == gidx and not isinstance(a.value, ast.Call):
+                    field = i
+    if field is None:
         raise AnalysisError("_ansi_tokenize: cannot follow the SGR group of re_ansi into the token it yields")
-    field = tok_args.index(order[gidx - 1])
     sgr_var = None
     for n in walk_local(f.node):
         if isinstance(n, ast.Assign) and isinstance(n.targets[0], ast.Tuple) and len(n.targets[0].elts) == 3 and norm(n.value) == "token":
@@ -309,7 +355,24 @@ def r19_14(ctx):
             if isinstance(c, (ast.ListComp, ast.GeneratorExp)) and len(c.generators) == 1 and "split" in norm(c.generators[0].iter) and sgr_var in norm(c.generators[0].iter):
                 comp = c
     if comp is None:
-        raise AnalysisError("decode_line: the codes are not built by one comprehension over the split parameters; the omitted-parameter clause is not decided")
+        loops = [c for b in branch.body for c in ast.walk(b) if isinstance(c, ast.For) and isinstance(c.target, ast.Name) and "split" in norm(c.iter) and sgr_var in norm(c.iter)]
+        if len(loops) != 1:
+            raise AnalysisError("decode_line: the codes are built neither by one comprehension nor by one loop over the split parameters; the omitted-parameter clause is not decided")
+        lp = loops[0]
+        sinks = {norm(c.func.value) for c in ast.walk(lp) if isinstance(c, ast.Call) and isinstance(c.func, ast.Attribute) and c.func.attr == "append"}
+        if len(sinks) != 1:
+            raise AnalysisError("decode_line: the code loop appends to more than one list")
+        vals, how = _fold_loop_body(lp.body, {lp.target.id: ""}, sinks.pop())
+        w2 = f"{m.relpath}:{lp.lineno}"
+        if isinstance(how, tuple):
+            ctx.violation(f.fq, short(lp), w2, f"the code loop raises {type(how[1]).__name__} for an omitted parameter: ESC[m breaks the decoding of the line")
+        elif vals == [0]:
+            ctx.ok(w2, "an omitted parameter is read as 0 (reset)", f.fq)
+        elif not vals:
+            ctx.violation(f.fq, short(lp), w2, "an omitted parameter is skipped by the code loop: ESC[m yields no code at all and nothing is reset")
+        else:
+            ctx.violation(f.fq, short(lp), w2, f"an omitted parameter becomes {vals!r}, not 0: ESC[m does not reset")
+        return
     gen = comp.generators[0]
     if not isinstance(gen.target, ast.Name):
         raise AnalysisError("decode_line: the code comprehension unpacks its items")
